@@ -170,7 +170,7 @@ def fullSlice : Item := .slice .none .none none
 def expandItems (k : Nat) (its : List Item) : Except Err (List Item) :=
   let nonEll := its.filter (· ≠ .ell)
   let nEll := its.length - nonEll.length
-  if nEll > 1 then throw .index
+  if nEll > 1 then throw .unmodelled      -- torch tolerates further `...` in some positions
   else if nonEll.length > k then throw .index
   else if nEll = 1 then
     pure (its.flatMap fun it => if it = .ell then List.replicate (k - nonEll.length) fullSlice else [it])
@@ -310,9 +310,13 @@ def Points.setitem (p : Points α) (ix : Index) (rhs : Points α) : Except Err (
 
 /-! ## whole-table operations -/
 
+/-- two right-aligned shapes cannot be broadcast against each other -/
+def symClash (a b : List Nat) : Bool :=
+  (a.reverse.zip b.reverse).any fun (x, y) => x ≠ y && x ≠ 1 && y ≠ 1
+
 def sameOrBcast (a b : List Nat) : Except Err Unit :=
   if a = b then pure ()
-  else if bcastClash a b || bcastClash b a then throw .runtime
+  else if symClash a b then throw .runtime
   else throw .unmodelled
 
 /-- `p + q`, `p - q`, `p * q`, `p / q`, `p ** q` with the cell function `f` -/
@@ -364,7 +368,8 @@ def Points.joined (ps : List (Points α)) : Except Err (Points α) :=
 
 /-- `p.repeat(*ns)`: `torch.Tensor.repeat` with the repeats padded by ones up to the tensor rank -/
 def Points.repeat (p : Points α) (ns : List Int) : Except Err (Points α) := do
-  if ns.any (· < 0) then throw .runtime
+  -- negative repeats are rejected by torch, except that it does not look at them for a tensor without cells
+  if ns.any (· < 0) then throw (if p.len = 0 ∨ p.space.dim = 0 then .unmodelled else .runtime)
   let reps := ns.map Int.toNat
   let nd := p.shape.length + 1
   -- full (shape, repeats) including the column axis
